@@ -126,6 +126,28 @@ def run(tier, seed, replay=None):
                     if got != exp:
                         run.fail("impl-vs-spec", {"value": v, "route": route},
                                  {"impl": got, "spec": exp})
+    # automatic choice recorded by the creators: same path, content resized between creates
+    if not replay or replay["case"].get("route") == "auto-create":
+        with sandbox("c12a") as box:
+            root = os.path.join(box, "p")
+            write_tree(root, [("small", b"x" * 10)])
+            big = os.path.join(root, "big")
+            seq = [50_331_648, 10_240, 16_384_001, 16_383_000, 0, 33_000_000, 4096]
+            rng.shuffle(seq)
+            prev_size = prev_pl = None
+            for size in (seq if tier != "quick" else seq[:5]):
+                with open(big, "ab") as fd:
+                    fd.truncate(size)
+                for kind in ("v1", "a2"):
+                    out = os.path.join(box, "auto.torrent")
+                    raw = impl.create(kind, root, out)
+                    got = impl.decode(raw)[b"info"][b"piece length"]
+                    want = spec_auto(size + 10)
+                    run.case(f"auto-create:{kind}:{size}", True, classes=["auto-create"])
+                    if got != want:
+                        run.fail("impl-vs-spec", {"route": "auto-create", "creator": kind,
+                                                  "sizes_so_far": seq, "size": size + 10},
+                                 {"impl": got, "spec": want})
     # automatic choice
     from torrentfile.utils import get_piece_length
     sizes = [0, 1, 2 ** 50, 2 ** 60, 2 ** 80]
